@@ -57,6 +57,9 @@ type Scenario struct {
 	SharedMode string     `json:"shared_mode,omitempty"`   // mode of the second graph (par | serial)
 	Shared2    bool       `json:"shared2,omitempty"`       // the second graph is made of the second Task objects (the ones add2 hands to the first graph)
 	Rerun      bool       `json:"rerun,omitempty"`         // call Run a second time on the same graph
+	PctIDs     bool       `json:"percent_ids,omitempty"`   // task IDs and the graph name contain a percent sign
+	ViaTask    bool       `json:"via_task,omitempty"`      // the second graph gets its shared tasks through g.Task(id) of the first one
+	TickerZero bool       `json:"ticker_zero,omitempty"`   // Graph.TickerDuration = 0
 	Literal    bool       `json:"literal_tasks,omitempty"` // tasks are struct literals &dag.Task{ID, Fn} instead of dag.NewTask results
 	SortOnly   bool       `json:"sort_only,omitempty"`     // the history (with its DepthFirstSort calls) is everything: no final Run
 	History    bool       `json:"history,omitempty"`       // construction-history scenario (C16a): edges are whatever the history declares
@@ -105,6 +108,15 @@ func (sc *Scenario) String() string {
 	}
 	if sc.Literal {
 		s += " (Task literals)"
+	}
+	if sc.PctIDs {
+		s += " (percent signs in IDs)"
+	}
+	if sc.ViaTask {
+		s += " (shared through g.Task(id))"
+	}
+	if sc.TickerZero {
+		s += " (TickerDuration 0)"
 	}
 	return s
 }
@@ -569,6 +581,10 @@ func (r *run) body(i int, ctx context.Context) error {
 		r.goexited = true
 		runtime.Goexit()
 	}
+	ctxWrap := rec.result == "xerr" // fails; if the run's context is done by then, the error wraps ctx.Err()
+	if ctxWrap {
+		rec.result = "err"
+	}
 	wrappedSkip := rec.result == "wskip" // ErrorSkipParents wrapped with context (errors.Is still holds)
 	if wrappedSkip {
 		rec.result = "skip"
@@ -602,6 +618,9 @@ func (r *run) body(i int, ctx context.Context) error {
 		if ctxErr {
 			return fmt.Errorf("%w: %w", r.sentinel[i], context.DeadlineExceeded)
 		}
+		if ctxWrap && ctx.Err() != nil {
+			return fmt.Errorf("%w: interrupted: %w", r.sentinel[i], ctx.Err())
+		}
 		return r.sentinel[i]
 	}
 }
@@ -629,14 +648,25 @@ func (r *run) main() {
 	for i := 0; i < n; i++ {
 		i := i
 		r.sentinel[i] = fmt.Errorf("task-%s-failed", tid(i))
-		r.tasks[i] = dag.NewTask(tid(i), r.taskFn(i, 0))
-		r.tasks2[i] = dag.NewTask(tid(i), r.taskFn(i, 0))
+		id := tid(i)
+		if sc.PctIDs {
+			id = tid(i) + ">=80%d 100%" // a legal ID; the library must not use it as a format string
+		}
+		r.tasks[i] = dag.NewTask(id, r.taskFn(i, 0))
+		r.tasks2[i] = dag.NewTask(id, r.taskFn(i, 0))
 		if sc.Literal {
-			r.tasks[i] = &dag.Task{ID: dag.ID(tid(i)), Fn: r.taskFn(i, 0)}
+			r.tasks[i] = &dag.Task{ID: dag.ID(id), Fn: r.taskFn(i, 0)}
 		}
 	}
-	g := dag.NewGraph("g")
+	gname := "g"
+	if sc.PctIDs {
+		gname = "rollout 100%s"
+	}
+	g := dag.NewGraph(gname)
 	g.TickerDuration = time.Millisecond
+	if sc.TickerZero {
+		g.TickerDuration = 0
+	}
 	switch sc.Mode {
 	case "serial":
 		g.SetSerial()
@@ -749,9 +779,12 @@ func (r *run) main() {
 			g2.SetSerial()
 		}
 		for _, t := range sc.Shared {
-			if sc.Shared2 {
+			switch {
+			case sc.Shared2:
 				g2.AddTask(r.tasks2[t])
-			} else {
+			case sc.ViaTask:
+				g2.AddTask(g.Task(string(r.tasks[t].ID)))
+			default:
 				g2.AddTask(r.tasks[t])
 			}
 		}
@@ -885,13 +918,13 @@ func (r *run) checkSort(g *dag.Graph) {
 			continue
 		}
 		np++
-		pt, ok := pos[tid(t)]
+		pt, ok := pos[string(r.tasks[t].ID)]
 		if !ok {
 			r.fail("C16", "DepthFirstSort: vertex %s is missing from the result", tid(t))
 			continue
 		}
 		for _, d := range m.deps[t] {
-			if pd, ok := pos[tid(d)]; ok && pd > pt {
+			if pd, ok := pos[string(r.tasks[d].ID)]; ok && pd > pt {
 				r.fail("C16", "DepthFirstSort: %s comes before its dependency %s", tid(t), tid(d))
 			}
 		}
